@@ -5,6 +5,7 @@ from lib.patheval import PathEval
 from lib.symexpr import add, show
 from .C09 import methods, IMPL
 
+INLINE = True      # crate-local helpers the rules do not know by name are inlined into their callers (lib/inline.py)
 EXPLANATION = (
     "Structural operand/ordering rules over MIR. R10.1: each allocator hook calls exactly the tally function of its "
     "kind exactly once whenever the thread's tally exists, with the size operands taken from layout.size()/new_size. "
